@@ -10,6 +10,7 @@ import OFV.Proofs.C17
 import OFV.Proofs.C17Rdm
 import OFV.Proofs.C17Car
 import OFV.Proofs.C17Hole
+import OFV.Proofs.C17Sum
 import Mathlib.Data.Matrix.Mul
 import Mathlib.LinearAlgebra.Matrix.Notation
 
@@ -275,6 +276,63 @@ theorem contraction_identity_term {R : Type} [Ring R] (n : Nat) (ad a : Nat → 
     (p q r : Nat) (hq : q < n) (hr : r < n) :
     ad p * ad r * a r * a q = ad p * a q * (ad r * a r) - dl r q * (ad p * a r) :=
   contraction_term h p q r hq hr
+
+/-! ### The summation steps (algebra over a commutative ring `K`, modes `< n`) -/
+
+open OFV.Car Finset in
+/-- **operator-level chemist reordering** (what `get_chemist_two_body_coefficients` implements): for every coefficient
+tensor `h`, `Σ h_pqrs a†_p a†_q a_r a_s = Σ h_pqrs a†_p a_s a†_q a_r − Σ_{pr} (Σ_q h_pqrq) a†_p a_r`; renaming the summation
+indices, the first sum is `Σ g_pqrs a†_p a_q a†_r a_s` with `g[p,q,r,s] = h[p,r,s,q]` (`transpose(h, [0,3,1,2])`,
+`chemist_entries`) and the one-body correction is `−Σ_q g[p,q,q,r]` -/
+theorem chemist_reorder_identity {K R : Type} [CommRing K] [Ring R] [Algebra K R] (n : Nat) (ad a : Nat → R)
+    (hc : CAR n ad a) (h : Nat → Nat → Nat → Nat → K) :
+    ∑ p ∈ range n, ∑ q ∈ range n, ∑ r ∈ range n, ∑ s ∈ range n, h p q r s • (ad p * ad q * a r * a s) =
+      (∑ p ∈ range n, ∑ q ∈ range n, ∑ r ∈ range n, ∑ s ∈ range n, h p q r s • (ad p * a s * ad q * a r))
+      - ∑ p ∈ range n, ∑ r ∈ range n, (∑ q ∈ range n, h p q r q) • (ad p * a r) :=
+  chemist_reorder_sum hc h
+
+open OFV.Car Finset in
+/-- **summed contraction** behind `map_two_pdm_to_one_pdm`: `Σ_r a†_p a†_r a_r a_q = a†_p a_q (N̂ − 1)`, and on a vector
+with `N̂ v = N v` this is `(N − 1) a†_p a_q v` -/
+theorem contraction_identity_summed {R V : Type} [Ring R] [AddCommGroup V] [Module R V] (n : Nat) (ad a : Nat → R)
+    (hc : CAR n ad a) (p q : Nat) (hq : q < n) (v : V) (N : R)
+    (hN : (∑ r ∈ range n, ad r * a r) • v = N • v) (hcomm : ad p * a q * N = N * (ad p * a q)) :
+    (∑ r ∈ range n, ad p * ad r * a r * a q = ad p * a q * (∑ r ∈ range n, ad r * a r) - ad p * a q) ∧
+    (∑ r ∈ range n, ad p * ad r * a r * a q) • v = (N - 1) • ((ad p * a q) • v) :=
+  ⟨contraction_sum hc p q hq, contraction_on_sector hc p q hq v N hN hcomm⟩
+
+open OFV.Car Finset in
+/-- **`InteractionRDM.expectation` is the expectation value**: for every linear functional `φ` with `φ 1 = 1` (e.g.
+`⟨ψ|·|ψ⟩` of a normalised state) and every `InteractionOperator` `H = c + Σ o1 a†a + Σ o2 a†a†aa` (any tensors, Hermitian or
+not, complex constant), `φ(H) = c + Σ D_pq o1_pq + Σ Γ_pqrs o2_pqrs` with `D = φ(a†_p a_q)`, `Γ = φ(a†_p a†_q a_r a_s)` -/
+theorem expectation_is_bilinear_pairing {K R : Type} [CommRing K] [Ring R] [Algebra K R] (n : Nat) (ad a : Nat → R)
+    (φ : R →ₗ[K] K) (hφ : φ 1 = 1) (c : K) (o1 : Nat → Nat → K) (o2 : Nat → Nat → Nat → Nat → K) :
+    φ (c • (1 : R) + (∑ p ∈ range n, ∑ q ∈ range n, o1 p q • (ad p * a q))
+        + ∑ p ∈ range n, ∑ q ∈ range n, ∑ r ∈ range n, ∑ s ∈ range n, o2 p q r s • (ad p * ad q * a r * a s)) =
+      c + (∑ p ∈ range n, ∑ q ∈ range n, φ (ad p * a q) * o1 p q)
+        + ∑ p ∈ range n, ∑ q ∈ range n, ∑ r ∈ range n, ∑ s ∈ range n, φ (ad p * ad q * a r * a s) * o2 p q r s :=
+  expectation_bilinear φ hφ c o1 o2
+
+open OFV.Car in
+/-- **`map_two_pdm_to_two_hole_dm` is correct for every state** (every linear functional `φ` with `φ 1 = 1`): with
+`D_pq = φ(a†_p a_q)`, `Γ_pqrs = φ(a†_p a†_q a_r a_s)` the 2-hole-RDM entry `φ(a_s a_r a†_q a†_p)` (`tqdm[s,r,q,p]`) equals
+`Γ_pqrs − term1 − term2 − term3` with exactly the three terms of the code (compare `twoPdmToTwoHole` / `term123`) -/
+theorem two_hole_map_correct {K R : Type} [CommRing K] [Ring R] [Algebra K R] (n : Nat) (ad a : Nat → R) (hc : CAR n ad a)
+    (φ : R →ₗ[K] K) (hφ : φ 1 = 1) (p q r s : Nat) (hp : p < n) (hq : q < n) (hr : r < n) (hs : s < n) :
+    φ (a s * a r * ad q * ad p) =
+      φ (ad p * ad q * a r * a s)
+        - ((if q = r then φ (ad p * a s) else 0) + (if p = s then φ (ad q * a r) else 0))
+        + ((if p = r then φ (ad q * a s) else 0) + (if q = s then φ (ad p * a r) else 0))
+        - ((if q = s ∧ p = r then (1 : K) else 0) - (if p = s ∧ q = r then 1 else 0)) :=
+  two_hole_expectation hc φ hφ p q r s hp hq hr hs
+
+open OFV.Car in
+/-- **`map_two_pdm_to_particle_hole_dm` is correct for every state**: `φ(a†_p a_r a†_q a_s) = δ_qr D_ps − Γ_pqrs`
+(`phdm[p,r,q,s]`, compare `twoPdmToPh`) -/
+theorem particle_hole_map_correct {K R : Type} [CommRing K] [Ring R] [Algebra K R] (n : Nat) (ad a : Nat → R)
+    (hc : CAR n ad a) (φ : R →ₗ[K] K) (p q r s : Nat) (hq : q < n) (hr : r < n) :
+    φ (ad p * a r * ad q * a s) = (if q = r then φ (ad p * a s) else 0) - φ (ad p * ad q * a r * a s) :=
+  particle_hole_expectation hc φ p q r s hq hr
 
 -- non-vacuity: one fermionic mode as 2 × 2 integer matrices satisfies the CAR for n = 1
 open OFV.Car Matrix in
